@@ -404,7 +404,64 @@ def rule_hash_params_(ctx: Ctx, rep: Report) -> None:
     rule_hash_params(ctx, rep, "C16.hash_params", ('btclib.ecc.musig2', 'btclib.ecc.dleq', 'btclib.ecc.dh', 'btclib.ecc.ecies', 'btclib.ecc.ellswift', 'btclib.ecc.borromean', 'btclib.ecc.pedersen', 'btclib.silent_payments', 'btclib.psbt.musig2', 'btclib.psbt.silent_payments'), 1)
 
 
+def rule_taproot_input_key_is_the_output_key(ctx: Ctx, rep: Report) -> None:
+    """C16.taproot_input_key_is_the_output_key: BIP352 sums, for a taproot input, the
+    *output* key the spent script_pub_key carries -- script path or key path,
+    whatever the internal key is. In the psbt role `input_pub_key`, the key
+    answered on the p2tr arm is read off the script (a slice of what
+    `_script_pub_key` answered), not off a psbt field such as
+    `taproot_internal_key`: sender and recipient would sum different keys and
+    the recipient finds nothing."""
+    rule = "C16.taproot_input_key_is_the_output_key"
+    fi = ctx.func("btclib.psbt.silent_payments.input_pub_key")
+    g = ctx.cfg(fi)
+    scripts = {a.targets[0].id for a in own_nodes(fi.node) if isinstance(a, ast.Assign) and isinstance(a.targets[0], ast.Name) and isinstance(a.value, ast.Call) and "script" in call_name(a.value)}
+    n = 0
+    for r in own_nodes(fi.node):
+        if not (isinstance(r, ast.Return) and r.value is not None):
+            continue
+        facts = [str(t) for t, pol in g.facts_at_ast(r.value) if pol]
+        if not any("is_p2tr" in t for t in facts):
+            continue
+        n += 1
+        names = {x.id for x in ast.walk(r.value) if isinstance(x, ast.Name)}
+        attrs = {x.attr for x in ast.walk(r.value) if isinstance(x, ast.Attribute)}
+        ok = bool(names & scripts) and not (attrs & {"taproot_internal_key", "taproot_hd_key_paths", "hd_key_paths"})
+        rep.ob(rule, "input_pub_key:p2tr", ok, fi.where(r), "the key is the one the spent script carries" if ok else
+               f"`{norm(r)[:80]}`: the key of a taproot input is taken from the psbt's fields, not from the output key in the script being spent")
+    rep.floor(rule, 1)
+
+
+def rule_adaptor_inverse(ctx: Ctx, rep: Report) -> None:
+    """C16.adaptor_inverse: `extract_adaptor` undoes `adapt`: adapt adds t to the
+    pre-signature's s, negated when the nonce R has an odd y, and extract
+    subtracts and negates on the same condition. The two read the same session
+    values and nothing more -- a factor (gacc, the key's sign) that only one of
+    them applies makes extract_adaptor(adapt(pre, t)) another t whenever that
+    factor is not 1."""
+    rule = "C16.adaptor_inverse"
+    fa, fe = ctx.func("btclib.ecc.musig2.adapt"), ctx.func("btclib.ecc.musig2.extract_adaptor")
+
+    def reads(fi):
+        vals = {a.targets[0].id for a in own_nodes(fi.node) if isinstance(a, ast.Assign) and isinstance(a.targets[0], ast.Name) and isinstance(a.value, ast.Call) and call_name(a.value) == "session_values"}
+        return {x.attr for x in own_nodes(fi.node) if isinstance(x, ast.Attribute) and isinstance(x.value, ast.Name) and x.value.id in vals}
+    ra, re_ = reads(fa), reads(fe)
+    rep.ob(rule, "adapt/extract_adaptor:same_values", ra == re_ and bool(ra), fe.where(), f"both read {sorted(ra)} of the session" if ra == re_ else
+           f"adapt reads {sorted(ra)} of the session values, extract_adaptor reads {sorted(re_)}: the two are not inverse of each other when {sorted(ra ^ re_)} is not trivial")
+    rep.floor(rule, 1)
+
+
+def rule_single_pass_(ctx: Ctx, rep: Report) -> None:
+    """C16.single_pass: a parameter admitted as an Iterable is walked at most once per path (see sigcommon.rule_single_pass)."""
+    from rules.sigcommon import rule_single_pass
+    rule_single_pass(ctx, rep, "C16.single_pass", ("btclib.silent_payments", "btclib.psbt.silent_payments", "btclib.ecc.musig2", "btclib.psbt.musig2"), 1)
+
+
 RULES = [
+    ("C16.taproot_input_key_is_the_output_key", rule_taproot_input_key_is_the_output_key),
+    ("C16.adaptor_inverse", rule_adaptor_inverse),
+    ("C16.single_pass", rule_single_pass_),
+
     ("C16.config_not_replaced", rule_config_not_replaced_),
     ("C16.hash_params", rule_hash_params_),
 
